@@ -61,6 +61,7 @@ fn main() {
 
     let full = bt::alphabet(3, true, true);
     let small = bt::alphabet(2, true, false);
+    let growth = bt::alphabet_growth();
     let jobs: Vec<Job> = match run.tier {
         Tier::Quick => vec![
             // cross-check of the dedup key: everything to depth 2 without pruning
@@ -69,8 +70,10 @@ fn main() {
             Job { key_type: "String", unique: true, start: None, alphabet: full.clone(), depth: 3, dedup: true, share: 0.15 },
             Job { key_type: "u64", unique: false, start: None, alphabet: full.clone(), depth: 3, dedup: true, share: 0.15 },
             Job { key_type: "u64", unique: true, start: None, alphabet: small.clone(), depth: 3, dedup: true, share: 0.05 },
-            Job { key_type: "String", unique: false, start: Some(1), alphabet: small.clone(), depth: 2, dedup: true, share: 0.10 },
-            Job { key_type: "String", unique: false, start: Some(2), alphabet: small.clone(), depth: 2, dedup: true, share: 0.10 },
+            Job { key_type: "String", unique: false, start: Some(1), alphabet: small.clone(), depth: 2, dedup: true, share: 0.05 },
+            Job { key_type: "String", unique: false, start: Some(2), alphabet: small.clone(), depth: 2, dedup: true, share: 0.05 },
+            Job { key_type: "String", unique: false, start: None, alphabet: growth.clone(), depth: 8, dedup: true, share: 0.05 },
+            Job { key_type: "u64", unique: false, start: None, alphabet: growth.clone(), depth: 8, dedup: true, share: 0.05 },
         ],
         Tier::Thorough => vec![
             Job { key_type: "String", unique: false, start: None, alphabet: full.clone(), depth: 3, dedup: false, share: 0.05 },
@@ -81,6 +84,8 @@ fn main() {
             Job { key_type: "String", unique: false, start: Some(0), alphabet: full.clone(), depth: 4, dedup: true, share: 0.04 },
             Job { key_type: "String", unique: false, start: Some(1), alphabet: full.clone(), depth: 5, dedup: true, share: 0.07 },
             Job { key_type: "String", unique: false, start: Some(2), alphabet: full.clone(), depth: 5, dedup: true, share: 0.07 },
+            Job { key_type: "String", unique: false, start: None, alphabet: growth.clone(), depth: 12, dedup: true, share: 0.03 },
+            Job { key_type: "u64", unique: false, start: None, alphabet: growth.clone(), depth: 12, dedup: true, share: 0.03 },
         ],
     };
 
@@ -105,6 +110,10 @@ fn main() {
             // quick bounds are fixed: not completing them is reported by cap_hit (done in explore)
         }
         outs.push(json!({"dedup": job.dedup, "out": out}));
+    }
+    if std::env::var("VINDEX_PROF").is_ok() {
+        let p: Vec<f64> = engine::PROF.iter().map(|a| a.load(std::sync::atomic::Ordering::Relaxed) as f64 / 1e9).collect();
+        println!("  profile (cpu s): start+ops {:.2}, live battery {:.2}, probe flush {:.2}, probe load+battery {:.2}, key {:.2}, crash {:.2}", p[0], p[1], p[2], p[3], p[4], p[5]);
     }
     run.set("runs", json!(outs));
     run.set(
